@@ -49,7 +49,9 @@ LEVEL_TEXT = ("Explicit-state search of every event history up to the depth boun
               "independent reference semantics under three valuations and compared with the model, and membership is compared.")
 LEVEL_NOTE = ("Trusted: mc/refsem (evaluation of the returned expressions) and the 40-line byte model of this module. Pointers are "
               "given in the simplifier's canonical form (what the engine passes to the store); widths 8/16/32/64 only; values are "
-              "expressions over the initial state (identifiers, constants, initial memory); big-endian is not implemented by miasm.")
+              "expressions over the initial state (identifiers, constants, initial memory); big-endian is not implemented by miasm. "
+              "Reads and membership tests do not modify the store, so the probe grid's verdict is computed once per distinct "
+              "store content (model dict + the store's own table) in each process and reused for transitions reaching the same content.")
 TECHNIQUE = "explicit-state BFS over operation histories on the real symbolic store against a byte-dict reference model"
 ASSUMPTIONS = ["pointers reach the store in canonical form base + integer offset (the engine simplifies them first)",
                "different symbolic bases do not alias (documented assumption of the engine)"]
